@@ -3,9 +3,9 @@ CONSTANTS
   ObjRecs <- MC_ObjRecs
   ConRecs <- MC_ConRecs
   MaxCons = 2
-  Methods <- MC_Methods
-  FaultExcs <- MC_Excs
-  OnlySuccess = FALSE
+  Methods <- MC_MethodsH
+  FaultExcs <- MC_NoExcs
+  OnlySuccess = TRUE
   EditInvalidates = TRUE
   BoundsLive = TRUE
   ParamsLive = TRUE
